@@ -11,6 +11,7 @@ import Driver.Ops.Z64
 import Driver.Ops.Layers
 import Driver.Ops.Aes
 import Driver.Ops.Fault
+import Driver.Ops.Spec
 /- Dispatch table: op-name prefix → handler (model evaluation → canonical response line).
    One file per stream under `Driver/Ops/`; register it here. -/
 
@@ -28,7 +29,8 @@ def handlers : List (String × (String → Args → Option String)) :=
     ("zc.", opZc),
     ("align.", opAlign),
     ("layers.", opLayers),
-    ("aes.", opAes) ]
+    ("aes.", opAes),
+    ("spec.", opSpec) ]
 
 def dispatch (op : String) (a : Args) : String :=
   match handlers.find? (fun h => op.startsWith h.1) with
